@@ -177,12 +177,6 @@ Theorem agg_unknown_column s win m attr rows :
 Proof. intros H. unfold run_agg. rewrite agg_table_char, H. reflexivity. Qed.
 
 (* ---------------------------------------------------------------- the window: full statements and their refutation *)
-Definition count_full : Prop :=
-  forall dflt s a e rows out,
-    0 <= a -> (forall x, e = Some x -> a <= x) -> ids_unique rows ->
-    select_accepts (sr_sql dflt s) rows out ->
-    run_count s (VInt a, pv_of_opt e) rows = OInt (zlength (window a e out)).
-
 Definition agg_full : Prop :=
   forall dflt s a e m attr c rows out,
     0 <= a -> (forall x, e = Some x -> a <= x) -> ids_unique rows -> resolve_attr attr = Some c ->
@@ -192,18 +186,6 @@ Definition agg_full : Prop :=
 Definition w_row1 : row := mkrow 1 (Some 1) None None None None.
 Definition w_row2 : row := mkrow 2 (Some 1) None None None None.
 Definition w_sel : sr := mksr STrue (BVal (OStr n_id)) false false.
-
-Theorem count_window_refuted :
-  exists dflt s a e rows out,
-    0 <= a /\ (forall x, e = Some x -> a <= x) /\ ids_unique rows /\
-    select_accepts (sr_sql dflt s) rows out /\
-    run_count s (VInt a, pv_of_opt e) rows <> OInt (zlength (window a e out)).
-Proof.
-  exists BNoDefault, w_sel, 0, (Some 0), [w_row1; w_row2], [w_row1; w_row2].
-  split; [lia|]. split; [intros x H; inversion H; lia|]. split.
-  - unfold ids_unique. cbn. repeat constructor; cbn; intuition discriminate.
-  - split; [apply select_check_sound; vm_compute; reflexivity|]. vm_compute. discriminate.
-Qed.
 
 Theorem agg_window_refuted :
   exists dflt s a e m attr c rows out,
@@ -220,12 +202,16 @@ Qed.
 Lemma window_all {A} (l : list A) : window 0 None l = l.
 Proof. reflexivity. Qed.
 
-(* guard: no window (start falsy, end absent) *)
-Theorem count_partial dflt s ws rows out :
-  falsy ws -> ids_unique rows -> select_accepts (sr_sql dflt s) rows out ->
-  run_count s (ws, VNone) rows = OInt (zlength (window 0 None out)).
-Proof. intros. rewrite window_all. eapply count_matches_list; eassumption. Qed.
+(* an unsliced select: count() is the length of the list it returns *)
+Theorem count_of_list dflt s win rows out :
+  sliced win = false -> ids_unique rows -> select_accepts (sr_sql dflt s) rows out ->
+  run_count s win rows = OInt (zlength out).
+Proof.
+  intros E Hu Ha. destruct (unsliced_shape _ E) as [H1 H2]. destruct win as [ws we]. cbn [fst snd] in *. subst we.
+  eapply count_matches_list; eassumption.
+Qed.
 
+(* guard: no window (start falsy, end absent) *)
 Theorem agg_partial dflt s ws m attr c rows out :
   falsy ws -> ids_unique rows -> resolve_attr attr = Some c ->
   select_accepts (sr_sql dflt s) rows out ->
